@@ -344,6 +344,30 @@ def rule_file(ctx) -> RuleResult:
     if not ok5:
         res.find("Workspace", "remove_recursively", "children not visited before the unlink", rr.where,
                  "descendants are not removed (or are visited after the parent link is gone)")
+    # each child is removed through a function that reaches the flat-container deletion
+    ws = p.cls("Workspace")
+
+    def reaches_file_removal(name, seen=()):
+        m = ws.lookup(name)
+        if not m or m[1] != "method" or name in seen:
+            return False
+        f = m[2]
+        for c in ast.walk(f.node):
+            if isinstance(c, ast.Call) and isinstance(c.func, ast.Attribute) and c.func.attr == "_io_call" and c.args and unparse(c.args[0]) == "H5Writer.remove_entity" \
+                    and len(c.args) > 1 and unparse(c.args[1]).endswith(".uid"):
+                return True
+        # direct, unconditional-by-structure calls only (self.<m>(...))
+        return False
+
+    for lp in [x for x in ast.walk(rr.node) if isinstance(x, ast.For) and "children" in unparse(x.iter)]:
+        var = unparse(lp.target)
+        calls = [c for s_ in lp.body for c in ast.walk(s_) if isinstance(c, ast.Call) and isinstance(c.func, ast.Attribute) and unparse(c.func.value) == "self"
+                 and c.args and unparse(c.args[0]) == var]
+        ok = bool(calls) and all(reaches_file_removal(c.func.attr) for c in calls)
+        res.inst(f"remove_recursively: each child goes through {[c.func.attr for c in calls]} (must contain the flat-container deletion)", nontrivial=True, ok=ok)
+        if not ok:
+            res.find("Workspace", "remove_recursively", f"children removed through {[c.func.attr for c in calls]}, which does not delete their node", f"{rr.module.relpath}:{lp.lineno}",
+                     "descendants are unlinked from their parents but their nodes stay in the flat Objects / Data containers of the file")
     # tables
     sft = p.func("Workspace.str_from_type")
     t_sft = _kind_table(sft, sft.params[0] if sft.kind == "staticmethod" else sft.params[1])
@@ -372,4 +396,46 @@ def rule_file(ctx) -> RuleResult:
     return res
 
 
-RULES = [rule_guard, rule_itermut, rule_sibling, rule_scrub, rule_file]
+C05_FILES = ("workspace/workspace.py", "objects/object_base.py", "shared/entity_container.py", "groups/property_group.py",
+             "shared/concatenation/concatenator.py", "shared/concatenation/object.py", "groups/base.py")
+
+
+def rule_oneshot(ctx) -> RuleResult:
+    res = RuleResult(
+        "C05.ONESHOT",
+        "C05",
+        "in the removal code no one-shot iterator (generator expression, map, filter, zip) is bound to a name and then consumed "
+        "inside a loop or more than once: the second consumer would see nothing and leave its references behind",
+        floor=1,
+    )
+    p = ctx.p
+    n_fn = 0
+    for rel in C05_FILES:
+        mod = p.module(rel)
+        fns = list(mod.functions.values()) + [f for c in mod.classes.values() for f in list(c.methods.values()) + [x for pr in c.props.values() for x in (pr.getter, pr.setter) if x]]
+        for fn in fns:
+            n_fn += 1
+            gens = {}
+            for a in ast.walk(fn.node):
+                if isinstance(a, ast.Assign) and len(a.targets) == 1 and isinstance(a.targets[0], ast.Name):
+                    v = a.value
+                    if isinstance(v, ast.GeneratorExp) or (isinstance(v, ast.Call) and isinstance(v.func, ast.Name) and v.func.id in ("map", "filter", "zip", "iter", "reversed")):
+                        gens[a.targets[0].id] = a
+            for name, a in gens.items():
+                uses = [n for n in ast.walk(fn.node) if isinstance(n, ast.Name) and n.id == name and isinstance(n.ctx, ast.Load)]
+                in_loop = False
+                for lp in ast.walk(fn.node):
+                    if isinstance(lp, (ast.For, ast.While)) and a not in list(ast.walk(lp)):
+                        if any(u in list(ast.walk(s_)) for s_ in lp.body for u in uses):
+                            in_loop = True
+                ok = len(uses) <= 1 and not in_loop
+                res.inst(f"{fn.qualname}: one-shot iterator `{name}` used {len(uses)} time(s), inside a loop: {in_loop}", nontrivial=True, ok=ok)
+                if not ok:
+                    res.find(fn.cls.name if fn.cls else fn.module.short, fn.prop or fn.name, f"one-shot iterator `{name}` consumed repeatedly", f"{fn.module.relpath}:{a.lineno}",
+                             f"`{name} = {unparse(a.value)[:50]}` is exhausted by its first consumer; every later consumer (loop iteration) gets an empty "
+                             "sequence: the remaining property groups / children are not scrubbed")
+    res.instances.append(f"{n_fn} functions of the removal code scanned for one-shot iterators bound to names")
+    return res
+
+
+RULES = [rule_guard, rule_itermut, rule_sibling, rule_scrub, rule_file, rule_oneshot]
